@@ -460,6 +460,25 @@ static void vf_case(uint64_t c, vf_rng *r)
             chk_sqrt64(s + 1, 3);
             VF_ADD("sqrt64", 3);
         }
+        /* the same boundaries one level down, where a divide-and-conquer root (root of the upper half first, then one division for the lower
+           digits) has its carries and clamps: the UPPER word next to a perfect square m^2 with any lower word, and (m * 2^16)^2 -+ j
+           (seeded change C19-M: a Karatsuba root compiled only under -Os keeps the remainder of an unclamped quotient digit and returns
+           floor - 1 when the upper word is m^2 - 1) */
+        for (i = 0; i < 65536; ++i)
+        {
+            uint64_t v = vf_u64(r);
+            uint64_t m = (v & 0xFFFFu) >> ((v >> 16) & 15);
+            uint64_t lowsel = (v >> 20) & 3, low = lowsel == 0 ? 0 : lowsel == 1 ? 0xFFFFFFFFu : (uint32_t)vf_u64(r) >> ((v >> 24) & 31);
+            uint64_t sq = m * m, j = (v >> 32) & 0xFFFFF;
+            unsigned sh = ((v >> 52) & 1) ? 32 : 2 * (unsigned)((v >> 53) % 17); /* any even split, the word split most often */
+            if (i & 1) { m |= 0x8000u; sq = m * m; } /* roots with the top bit set: the normalised case of such algorithms */
+            if (sq && sh < 64 && ((sq - 1) << sh) >> sh == sq - 1) { chk_sqrt64(((sq - 1) << sh) | (low & ((1ull << sh) - 1)), 0); }
+            if (sh < 64 && (sq << sh) >> sh == sq) { chk_sqrt64((sq << sh) | (low & ((1ull << sh) - 1)), 0); }
+            if (sh < 64 && ((sq + 1) << sh) >> sh == sq + 1) { chk_sqrt64(((sq + 1) << sh) | (low & ((1ull << sh) - 1)), 0); }
+            if (m) { chk_sqrt64((m << 16) * (m << 16) - 1 - j, 0); chk_sqrt64((m << 16) * (m << 16) + j, 0); }
+            VF_ADD("sqrt64", 5);
+            VF_ADD("sqrt64-upper-part-next-to-a-perfect-square", 3);
+        }
         if (vf_want_sample()) { vf_sample("a_u64_sqrt at k^2-1, k^2, k^2+1 for 65536 random k < 2^32"); }
         break;
     case K_SQRT64_SQUARES_TOP:
